@@ -149,6 +149,8 @@ func checkC07(p *Prog, l *Ledger) {
 					} else {
 						report("C07/P3-index", key, p.InstrPos(in), why2)
 					}
+				} else if ok3, why3 := pathSensitiveSliceProof(p, in); ok3 {
+					l.Discharge("C07/P3-index", key, p.InstrPos(in), why3, true)
 				} else {
 					report("C07/P3-index", key, p.InstrPos(in), "slice bounds: "+why)
 				}
@@ -1214,7 +1216,9 @@ func storedTypes(p *Prog, u *Universe, key string, seen map[string]bool) (map[st
 			}
 			sites := p.CallSites(fn)
 			if len(sites) == 0 {
-				return false
+				// never called, never taken as a value: dead code contributes no value (a constructor kept for
+				// compatibility after its callers moved to a sibling)
+				return !p.UsedAsValue(fn)
 			}
 			for _, cs := range sites {
 				args := cs.Common().Args
@@ -1544,4 +1548,90 @@ func scan(s, format string, n *int64) bool {
 	}
 	*n = v
 	return true
+}
+
+// pathSensitiveSliceProof: x[lo:hi] in a helper whose precondition the caller established (validIndex(i, len(x)) before
+// withoutElement(x, i)): every explored path of the built-ins and evaluator clauses that reaches the instruction must
+// know 0 <= lo <= hi <= len(x) — from tests of the very values used, allowing for a constant added to a tested value.
+func pathSensitiveSliceProof(p *Prog, in ssa.Instruction) (bool, string) {
+	if fnPkgName(in.Parent()) != "interpreter" {
+		return false, ""
+	}
+	pos := p.InstrPos(in)
+	var graphs []*Graph
+	cs := getClauses(p)
+	if len(cs.Probs) > 0 {
+		return false, ""
+	}
+	for _, m := range cs.all() {
+		graphs = append(graphs, m.G)
+	}
+	scratch := NewLedger("tmp", "quick", 0, "")
+	for _, m := range exploreNatives(p, scratch) {
+		graphs = append(graphs, m.G)
+	}
+	n := 0
+	for _, g := range graphs {
+		for _, es := range g.Out {
+			for _, e := range es {
+				if e.Ev == nil || e.Ev.Op != "slicebounds" || e.Ev.Pos != pos {
+					continue
+				}
+				n++
+				base, lo, hi := e.Ev.Args[0], e.Ev.Args[1], e.Ev.Args[2]
+				has := map[string]bool{}
+				for _, f := range strings.Split(e.Ev.KV["facts"], ";") {
+					has[f] = true
+				}
+				split := func(x string) (string, int64) { // "(y + k)" → y, k
+					if mm := reOffset.FindStringSubmatch(x); mm != nil && balanced(mm[1]) {
+						k, _ := strconv.ParseInt(mm[3], 10, 64)
+						if mm[2] == "-" {
+							k = -k
+						}
+						return mm[1], k
+					}
+					return x, 0
+				}
+				nonNeg := func(x string) bool {
+					if x == "" {
+						return true
+					}
+					if k, err := strconv.ParseInt(x, 10, 64); err == nil {
+						return k >= 0
+					}
+					y, k := split(x)
+					return k >= 0 && has["("+y+" < 0)=false"]
+				}
+				leLen := func(x string) bool {
+					if x == "" || x == "len("+base+")" {
+						return true
+					}
+					y, k := split(x)
+					switch {
+					case k <= 0 && (has["("+y+" < len("+base+"))=true"] || has["(len("+base+") < "+y+")=false"]):
+						return true
+					case k == 1 && has["("+y+" < len("+base+"))=true"]:
+						return true
+					}
+					return false
+				}
+				ordered := func() bool {
+					if lo == "" || hi == "" || lo == hi {
+						return true
+					}
+					yl, kl := split(lo)
+					yh, kh := split(hi)
+					return yl == yh && kl <= kh
+				}
+				if !nonNeg(lo) || !leLen(hi) || !ordered() || (hi == "" && !leLen(lo)) || (lo == "" && !nonNeg(hi)) {
+					return false, fmt.Sprintf("a path reaches %s[%s:%s] without having established the bounds", base, lo, hi)
+				}
+			}
+		}
+	}
+	if n == 0 {
+		return false, ""
+	}
+	return true, fmt.Sprintf("path-sensitive proof: all %d explored path states reaching this slice expression know 0 <= low <= high <= len of the very list sliced (the caller tested the index before handing it to this helper)", n)
 }
